@@ -299,7 +299,7 @@ class EvenSamplingTrajectory(TrajectoryCum):
             outcome_type=self.outcome_type,
             seed_sequence=self.seed_sequence.spawn(1)[0],
             electronics=self.electronics,
-            duration=self.duration,
+            duration=cp.deepcopy(self.duration),
             spawn_stack=spawn_stack,
         )
         return out
